@@ -1,26 +1,41 @@
 SPEC = dict(
     property='C04',
     level='other',
-    level_text='Bounded (labelled) on the real fragment()/Fragmenter: for 15 peptides x 10 ion-type subsets x 5 parameter tuples (+ random '
-               'peptides) the returned key set (type, span, charge, isotope, loss) equals an independent enumeration with no duplicate, every '
-               'ion\'s mass and m/z equal mass()/mz() of the ion\'s own sequence, the ion sequence is the slice of the peptide, and the five '
-               'alternative return types and the cached Fragmenter are projections of the same list. Deductive support: the span families used '
-               'for prefixes / suffixes / internal spans are the proved C06 span builders, slice() is proved under C11, adjust_mass / adjust_mz '
-               'under C02 (the per-ion arithmetic); _build_fragments (five nested loops over a set of losses, regex in get_losses) is not yet '
-               'under contract.',
-    level_note='regex engine and itertools.combinations in get_losses are exercised, not modelled. Two recorded findings restrict the '
-               'mass-agreement clause for static terminal rules and isotope labels.',
+    level_text='Mixed. DEDUCTIVE (unbounded peptide length, any requested sets; lists whose order the statement does not mention are bags): '
+               '_build_fragments (five nested loops: span > ion type > isotope > loss > charge) is proved to return EXACTLY one Fragment per '
+               '(span, ion type, isotope, applicable loss, charge) of its distinct inputs and nothing else, each carrying start/end/type/charge/'
+               'isotope/loss of its own key, neutral mass / mass / m/z equal to adjust_mass / adjust_mz of the sum of the per-residue '
+               'components over its own span, the serialized slice of the peptide as its sequence and the internal flag; '
+               '_get_forward / _get_backward / _get_internal / _get_immonium_fragments are proved to request exactly the n prefixes, n '
+               'suffixes, every strictly internal span and the n one-residue spans (span builders under their C06 contracts); '
+               '_get_terminal_fragments gives prefixes to a/b/c and suffixes to x/y/z; fragment() (annotation input, list options, explicit '
+               'loss rules) is proved to return the union of the four families for exactly the requested types on the peptide without its '
+               'labile modifications, to raise ValueError exactly for interval / unknown-position peptides, and - when no per-residue masses '
+               'are supplied - to use the calculator mass of each one-residue piece; get_number numbers prefixes by end, suffixes by n - start, '
+               'immonium ions by position and rejects unknown types; Fragmenter.fragment is proved to be the same call with its own '
+               'annotation, monoisotopic flag and cached masses. '
+               'BOUNDED (labelled) on the real fragment()/Fragmenter: for 15 peptides x 10 ion-type subsets x 5 parameter tuples (+ random '
+               'peptides) key set vs an independent enumeration, every ion\'s mass and m/z vs mass()/mz() of the ion\'s OWN sequence (i.e. '
+               'additivity of the calculator over the one-residue pieces, which the deductive tier does not prove), the five alternative '
+               'return types, scalar / string input forms, water / ammonia switches, regex loss applicability.',
+    level_note='adjust_mass / adjust_mz are proved under C02, slice under C11, the span builders under C06 (assumed here by contract); '
+               'get_losses (regex + itertools.combinations), split(), mass() and serialize() are pure callees whose own behaviour is bounded only. '
+               'Two recorded findings restrict the mass-agreement clause for static terminal rules and isotope labels.',
     design_ref='DESIGN.md section 6, C04',
-    technique='bounded run-time contract check of the real fragmenter against an independent enumeration and the real mass calculator '
-              '(labelled stand-in); relies on contracts proved under C02/C06/C11',
+    technique='weakest-precondition VCs from the real AST of _build_fragments, the four _get_*_fragments, _get_terminal_fragments, '
+              'fragment(), get_number and Fragmenter.fragment against sidecar contracts (bag-valued loop invariants over the five-deep loop '
+              'nest), discharged by z3 / cvc5; bounded run-time contract check against an independent enumeration and the real mass '
+              'calculator as labelled stand-in for calculator additivity and the alternative return types',
+    contracts=['frag'],
     bounded=[dict(name='C04-bounded', script='bounded/C04.py')],
     replay_finder='bounded/C04.py',
-    explanation='bounded enumeration only in this revision (no obligations of its own); the functions it composes are under contract elsewhere',
-    proved_clauses=[],
-    bounded_clauses=['one ion per (type, cleavage position, charge, isotope, applicable loss); n prefixes, n suffixes, every strictly internal span, n immonium',
-                     'mass and m/z of every ion == mass()/mz() of its own sequence / type / charge / isotope / loss',
-                     'mass, mz, label, mass-label, mz-label and Fragmenter are projections of the fragment list'],
+    explanation='enumeration and per-ion calculator values proved; additivity of the calculator and the projections bounded',
+    proved_clauses=['exactly one ion per requested (ion type, span, charge, isotope, applicable loss); n prefixes for a/b/c, n suffixes for x/y/z, every strictly internal span, n immonium',
+                    'every ion carries adjust_mass / adjust_mz of the summed components of its own span, type, charge, isotope, loss; its sequence is the slice of the peptide',
+                    'prefix / suffix / immonium numbering; the cached Fragmenter is the same call with its own cached masses'],
+    bounded_clauses=['summed one-residue components == mass() of the ion\'s own sequence (calculator additivity)',
+                     'mass, mz, label, mass-label, mz-label are projections of the fragment list', 'scalar / string inputs, water / ammonia switches, regex loss applicability'],
     uncovered_clauses=[],
-    assumptions=[],
-    trusted_base=['bounded/C04.py oracle'],
+    assumptions=['A-REAL', 'bags for order-free lists'],
+    trusted_base=['z3 5.1', 'cvc5 1.0.3', 'pyvc', 'bounded/C04.py oracle'],
 )
